@@ -13,7 +13,12 @@ RULE = ("the real qmail-local main() (ASan+UBSan build of the working tree; fork
         "message of up to %s lines from a 12-line From_/>From_/>>From_/near-miss pool x 7 unterminated tails x 7 old-file shapes x senders x dates; entry sizes "
         "around 1024/2048/3072; every call index x the same fault kinds, plus lock failure followed by a write failure; 2 and 3 concurrent deliveries as threads "
         "with every schedule of open/flock/write/fsync/ftruncate/close enumerated depth-first (capped at %s per configuration) plus seeded random schedules, "
-        "with and without a failing write; %s seeded random single deliveries (fault at any call of the run). Buffer boundaries, mbox AND maildir: the message length is "
+        "with and without a failing write; several maildir deliveries into ONE maildir (kind mm, 2-3 deliveries): restarts with the same / another pid 0..3 s later with and "
+        "without a mail reader having emptied new/, stale tmp/ and new/ names, and a second delivery running completely between two calls of the first child (every call "
+        "index; two live children, same second, different pids), plus a failing call / alarm / kill in the second one - replayed through MdSys.step (O_EXCL, link exclusivity, "
+        "pid uniqueness, clock, sleep), final new/ tmp/ compared with the model's, oracle: every delivery that reported success has its complete message in new/ (or cur/) "
+        "exactly once, nothing else appeared, old files untouched, no name linked twice while it was there; every maildir crash state also reports whether a link() had "
+        "returned 0 before the crash, and the message must be in new/ exactly then; %s seeded random single deliveries (fault at any call of the run). Buffer boundaries, mbox AND maildir: the message length is "
         "chosen so that the OUTPUT of the delivery (appended entry / maildir file; lead-in, >-quoting and last-line completion measured on a fault-free run of the "
         "implementation, not computed) is exactly k*1024+d bytes, k = 1..%s, d = -3..3, three message styles (text, From_/>From_ lines + unterminated last line, NUL/8-bit), "
         "and likewise MESSAGE length k*1024+d, d = -1..1; each with a failing call at EVERY call index of the delivery (open_append..close / the whole maildir child) x "
@@ -64,6 +69,21 @@ def mutate(dis, seed):
                         for fe in FERRS:
                             cases.add("%s %s %d:%d:%d" % (base, col, pr, fc, fe))
                         cases.add("%s %s %d:%d:-1,%d:%d:28" % (base, col, pr, fc, pr, fc + 1))
+        elif k == "mm":
+            n = int(f.get("n", "1"))
+            f.setdefault("msg0", f.get("in", "-"))
+            head = "%s %s %%s %s %s %s" % (n, f.get("time", "1000000000"), f.get("hn", "-"), f.get("local", "-"), f.get("host", "-"))
+            for col in (f.get("collide", "0"), "0", "1", "2"):
+                for flt in (f.get("faults", "-"), "-"):
+                    for dt in ("0", "1", "2"):
+                        for mua in ("0", "1"):
+                            for at in ("0", "3", "8"):
+                                tail = []
+                                for i in range(n):
+                                    pid = f.get("pid%d" % i, "4001")
+                                    a = at if i == 1 and pid != f.get("pid0", "4001") else "0"
+                                    tail.append("%s %s %s %s %s %s" % (f.get("msg%d" % i, "-"), f.get("sender%d" % i, "-"), pid, a, dt if i else "0", mua if i else "0"))
+                                cases.add("mm " + (head % col) + " " + flt + " " + " ".join(tail))
         elif k in ("mb", "mc"):
             n = int(f.get("n", "1"))
             box = f.get("box", "-")
@@ -94,15 +114,16 @@ run_standard("C12", "Nq.Props.C12", "drv_c12", "harness/c12_local.c", None, [],
              "2 300", "3 6000",
              {"quick": RULE % (2, 250, 300, 4, "", "mbox: all; maildir: one third per seed, seeds 1-3 cover it", "", 6),
               "thorough": RULE % (3, 4000, 6000, 6, ", EIO, alarm", "three bases, all", " / short write", 7)},
-             "Md.accept / Mb.sysStep / gfrom / myctime / ufline, rpline, dtline (Nq/LocalDeliver.lean, Nq/Local.lean) vs the system-call traces and "
+             "Md.accept / MdSys.step / Mb.sysStep / gfrom / myctime / ufline, rpline, dtline (Nq/LocalDeliver.lean, Nq/Local.lean) vs the system-call traces and "
              "outputs of qmail-local.c maildir(), maildir_child(), mailfile(), main(), gfrom.c, myctime.c",
              builder=builder, mutate=mutate,
              assumptions=["OS semantics of DESIGN.md 1.4 as implemented by harness/sim.c: link/unlink/open(O_EXCL) atomic and synchronous, link fails if the target "
                           "exists; data written since the last fsync of a file may be lost or arbitrary after a machine crash; fsync makes it durable; "
                           "O_APPEND writes go to the current end of the file; flock is a mutex on the file, dropped by close and by process exit",
                           "files present in new/ before the delivery staying untouched is judged by the oracle on the concrete crash states (not a theorem); "
-                          "maildir names: the pair (time, pid) is not shared by two delivering processes on one host (the uniqueness argument of maildir(5)); "
-                          "a name already taken is detected by open_excl / link, which the harness exercises",
+                          "maildir names: fork() gives a child a process id that no other live child has (guard of MdSys.step, hypothesis of C12_mdsys_concurrent_names); "
+                          "with it concurrent deliveries have different names; a restart can meet its own name only with the same pid in the same second, and then open_excl / "
+                          "link refuse it (C12_mdsys_link_exclusive) unless a mail reader has moved the first message away (C12_mdsys_restart_names); exercised by the mm cases",
                           "if lock_ex() itself fails the program proceeds unlocked (flaglocked = 0) and then neither serialisation nor roll-back holds; the result of "
                           "ftruncate is ignored by the code, so a failing ftruncate leaves the partial entry: both are excluded by the hypothesis Benign of "
                           "C12_mbox_serial / _final / _rollback / _append, exercised by the harness (lock failure + write failure) and counted "
